@@ -1004,6 +1004,7 @@ class SSHConnection(SSHPacketHandler, asyncio.Protocol):
         self._agent: Optional[SSHAgentClient] = None
 
         self._auth: Optional[Auth] = None
+        self._userauth_task: Optional['asyncio.Task[None]'] = None
         self._auth_in_progress = False
         self._auth_complete = False
         self._auth_final = False
@@ -2543,12 +2544,26 @@ class SSHConnection(SSHPacketHandler, asyncio.Protocol):
                 self._auth.cancel()
                 self._auth = None
 
-            self.create_task(self._finish_userauth(begin_auth, username,
-                                                   method, packet))
+            # Process auth requests one at a time, so a request is never
+            # checked against state still being set up by an earlier one
 
-    async def _finish_userauth(self, begin_auth: bool, username: str,
+            self._userauth_task = \
+                self.create_task(self._finish_userauth(self._userauth_task,
+                                                       begin_auth, username,
+                                                       method, packet))
+
+    async def _finish_userauth(self, prev_task: Optional['asyncio.Task[None]'],
+                               begin_auth: bool, username: str,
                                method: bytes, packet: SSHPacket) -> None:
         """Finish processing a user authentication request"""
+
+        if prev_task:
+            await asyncio.wait([prev_task])
+
+            if username != self._username:
+                # Another auth request changing the user arrived while
+                # we were waiting, so this request no longer applies
+                return
 
         if not self._owner: # pragma: no cover
             return
